@@ -13,7 +13,30 @@ import (
 	"github.com/lianxiangcloud/linkchain/libs/ser"
 )
 
-func (rn *runner) bytesPhase(base []*edge, n int) error {
+// settleBytes: the node's own steps and a fresh class after a byte-level input that changed the node (a mutation
+// may leave a message valid), and after every rn.follow inputs that did not.
+func (rn *runner) settleBytes(g *group, changed bool) error {
+	why := cause{Batch: rn.nSince, Last: rn.lastMsgs}
+	switch {
+	case changed && !rn.suspect:
+		if int(rn.b.rs().Height) != wantFacts[rn.class].H2() {
+			rn.res.FollowBlocked++
+		} else if err := rn.followUp(g.from, false, why); err != nil {
+			return err
+		}
+	case changed:
+	case rn.follow > 0 && rn.nSince >= rn.follow:
+		if err := rn.followUp(g.from, true, why); err != nil {
+			return err
+		}
+	default:
+		return nil
+	}
+	return rn.rebuild()
+}
+
+func (rn *runner) bytesPhase(g *group, n int) error {
+	base := g.edges
 	rng := rn.rng
 	// seeds: the valid base message of every type plus a sample of lattice messages
 	var seeds [][]byte
@@ -103,6 +126,11 @@ func (rn *runner) bytesPhase(base []*edge, n int) error {
 			}
 		}
 		rn.res.Bytes++
+		rn.nSince++
+		rn.lastMsgs = append(rn.lastMsgs, fmt.Sprintf("bytes ch=%#x %.120s", ch, hexOf(bz)))
+		if len(rn.lastMsgs) > 3 {
+			rn.lastMsgs = rn.lastMsgs[len(rn.lastMsgs)-3:]
+		}
 		rn.at(fmt.Sprintf("%s bytes ch=%#x %s", rn.class, ch, hexOf(bz)))
 		dm, derr := decode(bz)
 		rn.probe = nil
@@ -127,6 +155,7 @@ func (rn *runner) bytesPhase(base []*edge, n int) error {
 		}
 		if derr != nil {
 			if o.changed {
+				rn.suspect = true
 				rec.Kind, rec.Key, rec.Detail = "state-change", "state-change/bytes/undecodable", "an undecodable input changed the RoundState"
 				rn.addHit(rec)
 			}
@@ -135,7 +164,7 @@ func (rn *runner) bytesPhase(base []*edge, n int) error {
 			}
 		}
 		if o.changed {
-			if err := rn.rebuild(); err != nil {
+			if err := rn.settleBytes(g, true); err != nil {
 				return err
 			}
 			continue
@@ -153,10 +182,14 @@ func (rn *runner) bytesPhase(base []*edge, n int) error {
 					return err
 				}
 			} else if d.changed {
-				if err := rn.rebuild(); err != nil {
+				if err := rn.settleBytes(g, true); err != nil {
 					return err
 				}
+				continue
 			}
+		}
+		if err := rn.settleBytes(g, false); err != nil {
+			return err
 		}
 	}
 	return nil
